@@ -71,7 +71,8 @@ def gen_history(rng):
             op["kw"] = {"immed": rng.getrandbits(1), "group": rng.randrange(32)}
             op["tl"] = min(tl, 0xFFFF)
         ops.append(op)
-    return {"bs": bs, "nblocks": nblocks, "ops": ops, "devtype": rng.choice([0, 0, 4, 7]), "inquiry_length": rng.choice([36, 96, 96, 128, 260])}
+    return {"bs": bs, "nblocks": nblocks, "ops": ops, "devtype": rng.choice([0, 0, 4, 7]), "inquiry_length": rng.choice([36, 96, 96, 128, 260]),
+            "events": rng.random() < 0.6, "events_seed": rng.getrandbits(32), "symlink": rng.random() < 0.4}
 
 
 def gen_big(rng, i):
@@ -238,10 +239,23 @@ def run_history(ctx, hist, transport, world):
     bs, nblocks = hist["bs"], hist["nblocks"]
     tgt = Target(hist.get("devtype", 0), 0, bs, nblocks)
     tgt.inquiry_length = hist.get("inquiry_length", 96)
+    node = None
     if transport == "sgio":
-        node = devnode.new_node()
+        # a plain node, or a persistent name (symlink) as under /dev/disk/by-id
+        node = devnode.new_node(link=bool(hist.get("symlink")))
         dev = init_device(node, read_write=True)
-        world["sg"].handler = tgt.handle
+
+        def sg_handler(ev):
+            import os
+
+            try:
+                if os.fstat(ev["file"].fileno()).st_ino != os.stat(node).st_ino:
+                    tgt.anomalies.append("the command went through a handle to a node that is no longer the one at the device path")
+            except OSError as e:
+                tgt.anomalies.append("handle unusable: %s" % e)
+            return tgt.handle(ev)
+
+        world["sg"].handler = sg_handler
     else:
         dev = init_device("iscsi://192.0.2.1:3260/iqn.2003-01.org.example:disk/3", initiator_name="iqn.2003-01.org.example:me")
         world["is"].handler = tgt.handle
@@ -259,9 +273,39 @@ def run_history(ctx, hist, transport, world):
         overlap = False
         written = set()
         held = []  # data-in buffers of earlier reads whose command object was dropped: (buffer, content when read)
+        erng = __import__("random").Random("c12events:%r:%s" % (hist.get("events_seed", 0), transport))
         for op in hist["ops"]:
             k, w, lba, tl = op["kind"], op["width"], op["lba"], op["tl"]
             wit = dict(wit0, op=op, recent=[o["kind"] + str(o["width"]) for o in hist["ops"][max(0, op["id"] - 5): op["id"]]])
+            # events between two commands: the node is re-plugged (SG_IO), the unit queues 1-3 unit attention conditions
+            if hist.get("events") and node is not None and erng.random() < 0.04:
+                devnode.replug(node)
+                ctx.count("replugs_in_histories")
+                wit["node_replaced_before"] = True
+            pending_ua = 0
+            if hist.get("events") and erng.random() < 0.06:
+                pending_ua = erng.choice([1, 2, 2, 3])
+                for i in range(pending_ua):
+                    tgt.faults[tgt.n + i] = (2, tgt.sense(6, erng.choice([0x29, 0x2A, 0x28, 0x3F]), i))
+                ctx.count("unit_attentions_queued", pending_ua)
+                wit["unit_attentions_queued"] = pending_ua
+            seen_ua = 0
+            while pending_ua and seen_ua < pending_ua:
+                # the application's part: a command answered with UNIT ATTENTION is issued again
+                try:
+                    s.testunitready() if k in ("cap", "inq", "sync") else getattr(s, "read16" if lba >= 1 << 32 else "read10")(min(lba, nblocks - 1), 0)
+                    break  # came back without error although the unit still had a unit attention to report
+                except Exception as e:  # noqa: BLE001
+                    if type(e).__name__ == "CheckCondition" and e.data.get("sense_key") == 6:
+                        seen_ua += 1
+                        continue
+                    ctx.fail("C12:unit_attention_reported_as.%s" % type(e).__name__, "a queued UNIT ATTENTION surfaced as %s: %s" % (type(e).__name__, str(e)[:80]), wit, exc=e)
+                    seen_ua = pending_ua
+            if pending_ua and seen_ua < pending_ua:
+                ctx.fail("C12:unit_attention_swallowed", "the unit answered CHECK CONDITION / UNIT ATTENTION %d times, the caller saw %d of them: a command came back as if it had been carried out"
+                         % (pending_ua, seen_ua), wit)
+                for i in list(tgt.faults):
+                    del tgt.faults[i]
             n_before = tgt.n
             try:
                 if k == "write":
